@@ -763,17 +763,21 @@ class Sum(Binary):
 
     def __add__(self, value):
         try:
-            self.right.value += index(value)
+            value = index(value)
         except TypeError:
             return super().__add__(value)
+        return Sum(self.ebpf, self.left,
+                   Constant(self.ebpf, self.right.value + value))
 
     __radd__ = __add__
 
     def __sub__(self, value):
         try:
-            self.right.value -= index(value)
+            value = index(value)
         except TypeError:
-            return super().__add__(value)
+            return super().__sub__(value)
+        return Sum(self.ebpf, self.left,
+                   Constant(self.ebpf, self.right.value - value))
 
 
 class AndExpression(Binary):
